@@ -189,6 +189,26 @@ func (g *caseGen) midTaskScenario() {
 	}
 }
 
+// B lags, A saves at i, A applies further config changes and entries, only then
+// the record A kept in memory is sent to B, which replays the log after i
+func (g *caseGen) olderRecordScenario() {
+	g.ops = append(g.ops, "L")
+	for i, n := 0, g.r.Intn(3); i < n; i++ {
+		g.sessionEntry()
+	}
+	g.ops = append(g.ops, "P")
+	for i, n := 0, 1+g.r.Intn(3); i < n; i++ {
+		g.randomCC()
+		if g.r.Bool() {
+			g.sessionEntry()
+		}
+		if g.r.Chance(1, 3) {
+			g.ops = append(g.ops, "b")
+		}
+	}
+	g.ops = append(g.ops, fmt.Sprintf("K %d %d", []int{0, 0, 1, 3}[g.r.Intn(4)], []int{0, 0, 1, 2}[g.r.Intn(4)]))
+}
+
 func genCase(r *vh.Rand, id string, size int) string {
 	g := &caseGen{r: r, members: map[uint64]int{1: 0, 2: 0}, nextRep: 2}
 	g.kind = []string{"reg", "reg", "conc", "disk"}[r.Intn(4)]
@@ -247,7 +267,16 @@ func genCase(r *vh.Rand, id string, size int) string {
 			g.ops = append(g.ops, "L")
 		case x < 99:
 			if g.kind != "disk" {
-				g.ops = append(g.ops, fmt.Sprintf("I %d %d", []int{0, 0, 1, 3, 1000}[r.Intn(5)], []int{0, 0, 1, 2}[r.Intn(4)]))
+				switch r.Intn(4) {
+				case 0:
+					g.ops = append(g.ops, "P")
+				case 1:
+					g.ops = append(g.ops, fmt.Sprintf("K %d %d", []int{0, 0, 1, 3, 1000}[r.Intn(5)], []int{0, 0, 1, 2}[r.Intn(4)]))
+				case 2:
+					g.olderRecordScenario()
+				default:
+					g.ops = append(g.ops, fmt.Sprintf("I %d %d", []int{0, 0, 1, 3, 1000}[r.Intn(5)], []int{0, 0, 1, 2}[r.Intn(4)]))
+				}
 			} else {
 				g.ops = append(g.ops, fmt.Sprintf("M %d %d", []int{0, 0, 1, 3, 1000}[r.Intn(5)], []int{0, 0, 1, 4, 1000}[r.Intn(5)]))
 			}
